@@ -58,12 +58,14 @@ def _rand_op(rnd, keys):
     return {'k': k, 'key': rnd.choice(keys), 'blk': rnd.randint(1, 2)}
 
 
-def _rand_filter(rnd):
+def _rand_filter(rnd, numeric=False):
     k = rnd.choice(['const', 'edit', 'edit', 'edit', 'edge', 'nfu', 'delta', 'ifoutput', 'ifnotinit'])
     if k == 'const':
         return {'k': k, 'r': rnd.choice(['true', 'truthy', 'false', 'none'])}
     if k == 'edit':
-        keys = KEYS + ['source', 'value', 'previous']
+        # (with a Delta filter in the pipeline the edits leave 'value' alone: Delta is
+        # documented for numeric values only)
+        keys = KEYS if numeric else KEYS + ['source', 'value', 'previous']
         return {'k': k, 'ops': [_rand_op(rnd, keys) for _ in range(rnd.randint(0, 4))]}
     if k == 'edge':
         return {'k': k, 'rise': rnd.random() < .5, 'fall': rnd.random() < .5,
@@ -75,6 +77,10 @@ def _rand_filter(rnd):
     if k == 'ifnotinit':
         return {'k': k, 'blk': 3}
     return {'k': k}
+
+
+def _rand_filter_edit(rnd):
+    return {'k': 'edit', 'ops': [_rand_op(rnd, KEYS) for _ in range(rnd.randint(0, 4))]}
 
 
 def _rand_data(rnd, numeric=False):
@@ -141,6 +147,8 @@ def stimuli(tier, seed, ctx):
     for _ in range(400 if tier == 'quick' else 8000):
         fs = [_rand_filter(rnd) for _ in range(rnd.randint(1, 3))]
         numeric = any(f['k'] == 'delta' for f in fs)
+        if numeric:
+            fs = [f if f['k'] != 'edit' else _rand_filter_edit(rnd) for f in fs]
         pre = _script(rnd, rnd.randint(0, 4), numeric) if any(f['k'] == 'ifnotinit' for f in fs) else []
         out.append(_stim(fs, pre, _script(rnd, rnd.randint(3, 10), numeric),
                          # (Delta is documented for numeric values only: no non-numeric control outputs then)
